@@ -3,6 +3,7 @@ mod c03;
 mod c04;
 mod c05;
 mod c10;
+mod c14;
 mod hookutil;
 mod convert;
 mod ctx;
@@ -87,6 +88,7 @@ fn real_main(args: Vec<String>) -> i32 {
                 "C04" => c04::run(&ctx),
                 "C05" => c05::run(&ctx),
                 "C10" => c10::run(&ctx),
+                "C14" => c14::run(&ctx),
                 _ => Err(format!("no check for {}", prop)),
             };
             match r {
